@@ -30,6 +30,9 @@ def check(ctx, tier):
     varlen(ctx, tk)
     fs = [f for q, f in ctx.program.funcs.items() if q.startswith("npdataclasses.") and f.name not in ("empty", "empty_element", "stack_with_ragged", "__str__")]
     W.report(ctx, tk, "C18.e", fs)
+    tk.purity("C18.p", [ctx.func(q) for q in ['npdataclasses.NpDataClass.__getitem__', 'npdataclasses.NpDataClass.__len__', 'npdataclasses.NpDataClass.__iter__', 'npdataclasses.NpDataClass.__array_function__', 'npdataclasses.NpDataClass.astype', 'npdataclasses.VarLenArray.__array_function__', 'npdataclasses.npdataclass.FinalClass.__eq__']], "the operation does not write into its operands' buffers", content_only=True)
+    from .. import hazards as _hz, scopes as _sc
+    _hz.generic(ctx, tk, "C18.z", _sc.scope(tk, "C18"))
     return {}
 
 
@@ -111,7 +114,9 @@ def getitem(ctx, tk):
     for r in ga.cfg.returns():
         tm = ga.term(r.ast.value, r)
         ok = tm.k == "call" and call_name(tm) == "len" and tm.a[1] and tm.a[1][0].k == "sub" and is_const(tm.a[1][0].a[1], 0)
-        ctx.decide("C18.c", g, "the length of the table is the length of a field", True if ok else None, node=r.ast, key="len", engine="E6")
+        cells = tm.k == "attr" and tm.a[1] == "size"
+        ctx.decide("C18.c", g, "the length of the table is the number of entries (len) of a field", True if ok else (False if cells else None),
+                   "`%s` is the number of cells: a 2-D field of width w reports w times the number of entries" % (tm,), node=r.ast, key="len", engine="E5")
 
 
 def iteration(ctx, tk):
@@ -161,6 +166,18 @@ def concat_eq(ctx, tk):
         it = ga.term(fn.ast.iter, fn)
         ok = it.k == "call" and call_name(it) == "zip" and len(it.a[1]) == 2 and all((call_name(x) or "").endswith("shallow_tuple") for x in it.a[1])
         ctx.decide("C18.c", g, "== walks every pair of corresponding fields", True if ok else None, node=fn.ast, key="eq-domain", engine="E6")
+    # field shapes are compared before the element-wise comparison (broadcasting would hide a shape difference)
+    eqs = [n for n, c in find_calls(ga, lambda c: np_call(c, {"equal", "array_equal"}))]
+    from ..guards import aggregate_only
+
+    def msh(t):
+        if t.k == "cmp" and t.a[0] in ("==", "!=") and all(x.k == "attr" and x.a[1] == "shape" for x in (t.a[1], t.a[2])):
+            return ("same_shape", t.a[0] == "==")
+        return None
+    if eqs:
+        check_guard(ctx, "C18.c", g, eqs, Formulas([msh], irrelevant=aggregate_only), lambda A: A["same_shape"], ["same_shape"],
+                    "fields are compared element-wise only after their shapes were found equal", fa=ga,
+                    describe="an (n,1) field equals an (n,2) field with repeated columns through broadcasting")
     trues = [r for r in ga.cfg.returns() if isinstance(r.ast.value, ast.Constant) and r.ast.value.value is True]
     for r in trues:
         okt = all(ga.cfg.must_pass(fors, r) for _ in [0]) if fors else False
@@ -202,6 +219,14 @@ def varlen(ctx, tk):
             nm = np_call(tm, {"zeros_like", "zeros", "empty_like", "empty", "full", "full_like", "ones_like"})
             if nm and "shape" in dict(tm.a[2]) or (nm in ("zeros", "empty") and tm.a[1]):
                 alloc = (nm, n)
+    if alloc is not None:
+        tm = fa.term(alloc[1].ast.value, alloc[1])
+        like = np_call(tm, {"zeros_like", "empty_like", "full_like", "ones_like"}) is not None
+        dt = dict(tm.a[2]).get("dtype")
+        okd = like and dt is None or (dt is not None and dt.k == "attr" and dt.a[1] == "dtype")
+        badd = dt is not None and (dt.k in ("global", "const") or (attr_chain(dt) or ("",))[0] in ("np", "numpy"))
+        ctx.decide("C18.d", f, "the padded buffer has the dtype of the arrays being concatenated", True if okd else (False if (badd or (not like and dt is None)) else None),
+                   "buffer dtype is %s: values of another dtype are truncated / converted" % (dt if dt is not None else "numpy's default float"), node=alloc[1].ast, key="dtype", engine="E6")
     if alloc is None:
         ctx.unknown("C18.d", f, "padding buffer allocation", engine="E3")
     else:
